@@ -27,6 +27,8 @@ CAT = {'Input': (0, 0, 1, 1), 'Sum': (0, 0, 2, 1), 'Gate': (0, 0, 2, 1), 'FixedP
        # names related by PREFIX (output selection must match whole names): the oracle is the Go kernel itself
        'DynamicSednetGully': (12, 0, 4, 4), 'DynamicSednetGullyAlt': (12, 0, 4, 4),
        'StorageTrapAll': (0, 1, 4, 2),
+       # kernels that return before touching their outputs when a parameter is exactly 0 (they rely on zeroed outputs)
+       'FixedConcentration': (1, 0, 1, 1), 'EmcDwc': (2, 0, 2, 3), 'PassLoadIfFlow': (1, 0, 2, 1), 'DepthToRate': (2, 0, 1, 1),
        # models with a DIMENSION (table parameters): nParams = None, it follows from the model-wide maximum of the
        # dimension parameter over all nodes (rows: nPts, inputAmount[max], proportion[max] / DeltaT, nLVA, 5 x [max])
        'Storage': (None, 3, 6, 4), 'RatingCurvePartition': (None, 0, 1, 2)}
@@ -57,7 +59,52 @@ def dim_params(rng, nm, n, nmax):
         return [float(n)] + xs + pad + ys + pad, []
     lv, vol, ar, mn, mx, v0s = STORAGE_TABLES[n]
     return [86400.0, float(n)] + lv + pad + vol + pad + ar + pad + mn + pad + mx + pad, [rng.choice(v0s), 0.0, 0.0]
-MUSK = [(1.0, 0.0, 1.0), (1.0, 0.25, 1.0), (2.0, 0.125, 2.0), (1.0, 0.5, 1.0), (3.0, 0.25, 2.0)]
+MUSK = [(1.0, 0.0, 1.0), (1.0, 0.25, 1.0), (2.0, 0.125, 2.0), (1.0, 0.5, 1.0), (3.0, 0.25, 2.0),
+        # ends of the documented ranges (K in [0,200000], X in [0,1], DeltaT in [1,86400])
+        (0.0, 0.0, 1.0), (1.0, 1.0, 86400.0), (200000.0, 0.5, 86400.0)]
+ZERO_PARAM_MODELS = {'ApplyScalingFactor', 'FixedConcentration', 'EmcDwc', 'PassLoadIfFlow', 'DepthToRate'}
+# models that take any IEEE value (NaN, +-Inf, -0) in their inputs without panicking
+IEEE_TOLERANT = ['Input', 'Sum', 'Gate', 'FixedPartition', 'VariablePartition', 'ApplyScalingFactor', 'PartitionDemand', 'Lag',
+                 'Muskingum', 'FixedConcentration', 'EmcDwc', 'PassLoadIfFlow', 'DepthToRate', 'StorageTrapAll']
+
+
+def special_series(rng, T):
+    """an input series with IEEE special values: NaN / +Inf / -Inf / -0 at the first, a middle or the last position (or
+    several), in an otherwise all-zero, all-minus-zero or ordinary series"""
+    base = rng.choice(['zero', 'zero', 'negzero', 'mixed', 'mixed'])
+    ser = [0.0 if base == 'zero' else -0.0 if base == 'negzero' else value(rng) for _ in range(T)]
+    if T == 0:
+        return ser
+    nan, inf = float('nan'), float('inf')
+    for _ in range(rng.choice([0, 1, 1, 1, 2, 3])):
+        pos = rng.choice([0, T - 1, T // 2, rng.randrange(T), rng.randrange(T)])
+        ser[pos] = rng.choice([nan, nan, nan, inf, -inf, -0.0, 0.0])
+    return ser
+
+
+def draw_params(rng, nm, ns, pzero):
+    """parameter column of a node: ordinary values, exactly 0 and the ends of the documented ranges"""
+    z = rng.random() < pzero
+    if nm == 'FixedPartition':
+        return [rng.choice([0.0, 0.25, 0.5, 1.0, 0.3])]
+    if nm == 'ApplyScalingFactor':
+        return [0.0 if z else rng.choice([0.0, 1.0, 0.5, 2.0, 1.7])]
+    if nm == 'Lag':
+        return [float(rng.randint(0, ns))]
+    if nm == 'Muskingum':
+        return list(rng.choice(MUSK))
+    if nm.startswith('DynamicSednetGully'):
+        return [float(rng.randint(0, 2)), float(rng.randint(1, 3)), 1e4, rng.choice([0.0, 0.5, 1.0, 2.0, 3.0]), 10.0, 40.0, 1.0,
+                rng.choice([0.0, 2.0]), rng.choice([0.0, 1.0, 1.5]), 50.0, 20.0, rng.choice([86400.0, 86400.0, 1e8])]
+    if nm == 'FixedConcentration':
+        return [0.0 if z else rng.choice([0.0, 0.1, 2.5, 10000.0])]
+    if nm == 'EmcDwc':
+        return [0.0, 0.0] if z else [rng.choice([0.0, 0.1, 3.0, 10000.0]), rng.choice([0.0, 0.1, 1.5, 10000.0])]
+    if nm == 'PassLoadIfFlow':
+        return [0.0 if z else rng.choice([0.0, 1.0, 0.5, 2.0])]
+    if nm == 'DepthToRate':
+        return [rng.choice([1.0, 3600.0, 86400.0]), 0.0 if z else rng.choice([0.0, 1.0, 1e4, 2.5e6])]
+    return []
 
 
 def value(rng):
@@ -75,8 +122,9 @@ def gen_case(rng, cid, big=False, split=None, force=None):
     G = force.get('G', rng.choice([1, 2, 2, 3, 3, 3, 4, 5] + ([6, 8] if big else [])))
     T = force.get('T', rng.choice([1, 5, 5, 20] + ([0] if rng.random() < 0.15 else [])))
     maxn = 6 if big else 4
-    names = rng.sample(sorted(CAT), rng.randint(2, 6 if big else 5))
-    if 'Input' not in names and rng.random() < 0.8:
+    pool = sorted(force.get('pool') or CAT)
+    names = rng.sample(pool, rng.randint(2, 6 if big else 5))
+    if 'Input' not in names and rng.random() < (1.0 if force.get('special') else 0.8):
         names[0] = 'Input'
     for k, must in enumerate(force.get('must', [])):
         if must not in names:
@@ -102,6 +150,8 @@ def gen_case(rng, cid, big=False, split=None, force=None):
             counts.append(c)
         if nm == 'Input' and counts[0] == 0 and style >= 0.1:
             counts[0] = rng.randint(1, maxn)
+        if force.get('equal') and nm in force.get('must', []):
+            counts = [rng.choice([1, 2, 3])] * G          # the same number of nodes in every generation
         batches, acc = [], 0
         for c in counts:
             acc += c
@@ -145,19 +195,7 @@ def gen_case(rng, cid, big=False, split=None, force=None):
             m['np'] = (2 + 5 * m['dimmax']) if m['name'] == 'Storage' else (1 + 2 * m['dimmax'])
         for row in range(m['N']):
             nm = m['name']
-            if nm == 'FixedPartition':
-                p = [rng.choice([0.0, 0.25, 0.5, 1.0, 0.3])]
-            elif nm == 'ApplyScalingFactor':
-                p = [rng.choice([0.0, 1.0, 0.5, 2.0, 1.7])]
-            elif nm == 'Lag':
-                p = [float(rng.randint(0, m['ns']))]
-            elif nm == 'Muskingum':
-                p = list(rng.choice(MUSK))
-            elif nm.startswith('DynamicSednetGully'):
-                p = [float(rng.randint(0, 2)), float(rng.randint(1, 3)), 1e4, rng.choice([0.5, 1.0, 2.0]), 10.0, 40.0, 1.0,
-                     rng.choice([0.0, 2.0]), rng.choice([0.0, 1.0, 1.5]), 50.0, 20.0, 86400.0]
-            else:
-                p = []
+            p = draw_params(rng, nm, m['ns'], force.get('pzero', 0.1))
             s = [value(rng) for _ in range(m['ns'])]
             if nm in DIMENSIONED:
                 p, s0 = dim_params(rng, nm, m['dims'][row], m['dimmax'])
@@ -165,6 +203,8 @@ def gen_case(rng, cid, big=False, split=None, force=None):
             inp = [[(rng.choice([0.0, 0.25, 0.5, 1.0]) if (nm == 'VariablePartition' and k == 1) else
                      0.0 if (nm == 'Storage' and k >= 4) else value(rng))
                     for _ in range(T)] for k in range(m['ni'])] if m['hasin'] else None
+            if inp is not None and force.get('special'):
+                inp = [special_series(rng, T) if rng.random() < 0.7 else row for row in inp]
             nodes.append((p, s, inp))
         m['nodes'] = nodes
 
@@ -228,7 +268,7 @@ def gen_case(rng, cid, big=False, split=None, force=None):
         flags.append(rng.choice(['-v', '-verbose']))
     if rng.random() < 0.04:
         flags += ['-cpuprofile', 'cpu.prof']
-    outfile = 0 if rng.random() < 0.06 else 1
+    outfile = force.get('outfile', 0 if rng.random() < 0.06 else 1)
     # where ow-sim is told to find the time series / parameters / initial states (0: structure file, 1: only in the file
     # named by -input-timeseries / -parameters / -initial-states, 2: there, with a decoy copy in the structure file) and
     # what is in the way of the output file (1: stale file + -overwrite, 2: stale file, no -overwrite: must refuse,
@@ -237,7 +277,8 @@ def gen_case(rng, cid, big=False, split=None, force=None):
                                      rng.choice([0, 0, 0, 0, 0, 1, 1, 2, 3]) if outfile and not split else 0)
     return {'id': cid, 'T': T, 'G': G, 'models': models, 'links': links,
             'outfile': outfile, 'flags': flags, 'split': list(split or []),
-            'finalstates': 1 if rng.random() < 0.15 else 0, 'fanin': fanin, 'layout': tuple(layout)}
+            'finalstates': 1 if rng.random() < 0.15 else 0, 'fanin': fanin, 'layout': tuple(layout),
+            'special': bool(force.get('special')), 'recycle_prone': bool(force.get('equal'))}
 
 
 
@@ -283,6 +324,18 @@ def gen_wide(rng, cid):
     links.sort(key=lambda l: l[0])
     return {'id': cid, 'T': T, 'G': 3, 'models': models, 'links': links, 'outfile': 1,
             'flags': ['-inputs-for', 'Sum,Gate'], 'split': [], 'finalstates': 0, 'fanin': S, 'wide': True}
+
+def zero_nan_links(cd):
+    """number of links whose source is an Input node with a stored series made of zeros and NaNs only, the first a zero"""
+    n = 0
+    for l in cd['links']:
+        m = cd['models'][l[1]]
+        if m['name'] == 'Input' and m.get('hasin') and m.get('nodes'):
+            ser = m['nodes'][l[2]][2][0]
+            if ser and ser[0] == 0 and any(x != x for x in ser) and all(x != x or x == 0 for x in ser):
+                n += 1
+    return n
+
 
 def case_tokens(c):
     t = ['CASE', c['id'], 'T', str(c['T']), 'NMODELS', str(len(c['models']))]
@@ -519,6 +572,21 @@ def main():
     for i in range(0 if replay else (8 if quick else 60)):
         add(gen_case(rng, 'd%04d' % i, force={'must': [['RatingCurvePartition'], ['Storage'], ['RatingCurvePartition', 'Storage']][i % 3],
                                                'G': rng.choice([3, 4, 5])}))
+    # IEEE special values (NaN, +-Inf, -0; first / middle / last position; otherwise-zero and mixed series) in the stored
+    # series of graphs over the models that take any value: they must travel through the links bit for bit
+    for i in range(0 if replay else (10 if quick else 60)):
+        add(gen_case(rng, 'n%04d' % i, force={'special': True, 'pool': IEEE_TOLERANT, 'T': rng.choice([5, 12, 20]),
+                                               'G': rng.choice([2, 3, 4])}))
+    # many generations of EQUAL size of the models whose kernels return early on a parameter that is exactly 0, some
+    # nodes with that parameter 0 and others not, output file given; run with delays so that the writer goroutines keep
+    # up with the main loop (generations are written and purged while later ones are still to be simulated)
+    recycle_files = []
+    for i in range(0 if replay else (10 if quick else 60)):
+        must = rng.sample(sorted(ZERO_PARAM_MODELS), rng.choice([1, 2, 2]))
+        cd = gen_case(rng, 'z%04d' % i, force={'must': must, 'equal': True, 'pzero': 0.4, 'G': rng.choice([5, 6, 8]),
+                                                'outfile': 1, 'pflag': 0.1, 'T': rng.choice([5, 20])})
+        add(cd)
+        recycle_files.append(cd['file'])
     # wide graphs (one generation with hundreds of links into the same input series), each run several times
     # rep 0: the hooked binary (trace checked); reps 1..: the binary as shipped (no verif tag: no trace, goroutines not
     # serialised on the trace mutex), all cores; thorough: one more rep under the race detector
@@ -544,15 +612,23 @@ def main():
     # ---- run the real ow-sim (several simgen processes in parallel, different scheduling conditions)
     files = sorted(cases)
     nproc = 8
-    small = [f for f in files if f not in wide_files + wide_plain_files + wide_race_files]
+    small = [f for f in files if f not in wide_files + wide_plain_files + wide_race_files + recycle_files]
     groups = [small[i::nproc] for i in range(nproc)]
     # the wide graphs: all cores, no injected delays; thorough: once more under the race detector
     groups.append(wide_files)
     groups.append(wide_plain_files)
     groups.append(wide_race_files)
+    groups.append(recycle_files[0::2])
+    groups.append(recycle_files[1::2])
     conds = []
     for gi in range(len(groups)):
         env = dict(GOENV)
+        if gi >= nproc + 3:          # the equal-sized-generation graphs: delays at every trace point
+            env['GOMAXPROCS'] = ['4', '16'][gi - nproc - 3]
+            env['VERIF_JITTER_US'] = ['2500', '1200'][gi - nproc - 3]
+            env['VERIF_JITTER_SEED'] = str(c.seed * 100 + gi)
+            conds.append(env)
+            continue
         if gi >= nproc:
             env['GOMAXPROCS'] = '16'
             env['VERIF_JITTER_US'] = '0'
@@ -572,7 +648,7 @@ def main():
             continue
         binp = owsim_race if (owsim_race and gi % 2 == 1) else owsim
         if gi >= nproc:
-            binp = [owsim, owsim_plain, owsim_plain_race][gi - nproc]
+            binp = [owsim, owsim_plain, owsim_plain_race, owsim, owsim_race or owsim][gi - nproc]
         wd = os.path.join(work, 'w%d' % gi)
         os.makedirs(wd)
         outf = open(os.path.join(work, 'simgen%d.out' % gi), 'w')
@@ -646,6 +722,22 @@ def main():
         stats['putback_runs'] += 1 if 'putback' in evs else 0
         stats['main_putback_runs'] += 1 if 'main-putback' in evs else 0
         stats['distinct_traces'].add(hashlib.sha1(repr(r['trace']).encode()).hexdigest())
+        purged_gens, early_purge = set(), False
+        for t in r['trace']:
+            if t[0].startswith('purged:'):
+                purged_gens.add(int(t[1]))
+            elif t[0] == 'ran' and purged_gens:
+                early_purge = True          # a generation was purged while a later one was still to be simulated
+        stats['runs_with_a_purge_before_a_later_generation_ran'] = \
+            stats.get('runs_with_a_purge_before_a_later_generation_ran', 0) + (1 if early_purge else 0)
+        if cd.get('special'):
+            stats['ieee_special_value_cases'] = stats.get('ieee_special_value_cases', 0) + 1
+            stats['ieee_special_value_links_from_zero_plus_nan_series'] = \
+                stats.get('ieee_special_value_links_from_zero_plus_nan_series', 0) + zero_nan_links(cd)
+        if cd.get('recycle_prone'):
+            stats['equal_generation_zero_parameter_cases'] = stats.get('equal_generation_zero_parameter_cases', 0) + 1
+            stats['equal_generation_zero_parameter_cases_purged_early'] = \
+                stats.get('equal_generation_zero_parameter_cases_purged_early', 0) + (1 if early_purge else 0)
         anyempty = any(x == 0 for m in cd['models'] for x in m['counts'])
         lastempty = any(m['counts'] and m['counts'][-1] == 0 and m['N'] > 0 for m in cd['models'])
         stats['empty_batches'] += 1 if anyempty else 0
@@ -788,7 +880,12 @@ def main():
                      '-input-timeseries / -parameters / -initial-states with the table only in the separate file or with a decoy '
                      'copy left in the structure file, -overwrite over a stale output file, refusal without -overwrite, '
                      '-v/-verbose/-cpuprofile; wide graphs with 300-600 links into the same input series run with the untagged '
-                     'binary) written through io.H5Ref* into fake-HDF5 files, run by the '
+                     'binary; parameters also drawn at exactly 0 and at the ends of the documented ranges, incl. the kernels that '
+                     'return early on a zero parameter (ApplyScalingFactor, FixedConcentration, EmcDwc, PassLoadIfFlow, DepthToRate) '
+                     'in 5-8 equal-sized generations run with delays so that generations are written and purged while later ones '
+                     'are still to run; stored series with NaN / +-Inf / -0 at the first, middle and last positions of otherwise '
+                     'zero, minus-zero or ordinary series over the models that accept any value, compared bit for bit with NaN = NaN) '
+                     'written through io.H5Ref* into fake-HDF5 files, run by the '
                      'real ow-sim binary under GOMAXPROCS in {1,2,4,16} with random delays at the trace points; every dataset '
                      'of the output compared bit-for-bit with (i) every node run alone through sim.Catalog (oracle), (ii) the '
                      'extracted impl_sim under the observed schedule and under the canonical one, (iii) ref_sim - the kernel '
